@@ -606,6 +606,13 @@ def iter_method(ex, args, m):
     return iter_adaptor(ex, m.group(1), it, args[1:], m)
 
 
+@model(r"<(?:std::boxed::)?Box<dyn (?:std::iter::)?Iterator<.*>(?: \+ '\w+)?> as (?:Iterator|DoubleEndedIterator)>::(\w+)(?:::<.*>)?")
+def boxed_iter_method(ex, args, m):
+    it = deref(args[0])
+    if isinstance(it, BoxV): it = deref(it.f[0])
+    return iter_adaptor(ex, m.group(1), it, args[1:], m)
+
+
 def iter_adaptor(ex, name, it, rest, m):
     if isinstance(it, RangeIter): it = SeqIter(it.drain(ex))
     if isinstance(it, Struct) and simple_name(it.ty) == 'Range': it = SeqIter(RangeIter(it).drain(ex))
@@ -903,6 +910,10 @@ def hint_must_use(ex, args): return args[0]
 
 @model(r'<(?:u8|u16|u32|u64|usize|i32|i64|isize) as Default>::default')
 def int_default(ex, args): return 0
+
+
+@model(r'<(?:std::ops::|core::ops::|ops::)?Range<(?:u8|u16|u32|u64|usize|i32|i64|isize)> as Default>::default')
+def range_default(ex, args): return Struct('ops::Range', [0, 0])
 
 
 @model(r'<bool as Default>::default')
